@@ -123,39 +123,46 @@ theorem same_toV : ∀ a b : Ctx, Same a b → SameV a b := fun _ _ h => h.1
 
 /-! ### strings and numbers -/
 
-/-- the string can only be written as a text field, and contains `<LF>;` — CIF 1.1 has no presentation for it -/
+/-- CIF 1.1 has no presentation for the string: it holds a carriage return (no CIF reader gives one back), or it can only be
+    written as a text field and contains `<LF>;` -/
 def refusedText (t : Str) (q : Bool) : Prop :=
-  (analyze t (!q) false LINE).delimLength = 2 ∧ (analyze t (!q) false LINE).containsTextDelim = true
+  (13 : CU) ∈ t ∨ ((analyze t (!q) false LINE).delimLength = 2 ∧ (analyze t (!q) false LINE).containsTextDelim = true)
 
 theorem out_writeChar (c : Ctx) (t : Str) (q : Bool) (hc : c.isCif1 = true) :
     Out Same c (writeChar c t q true) (validate11 t = true) (¬ refusedText t q) := by
   have hnc : (!c.isCif1) = false := by simp [hc]
   refine ⟨?_, ?_, ?_⟩
   · intro hv hr
+    have hcl : Lemmas.WriterChar.strClean c.isCif1 t = true :=
+      Lemmas.WriterChar.strClean_of _ t (fun h => hr (Or.inl h)) (fun h => by rw [hc] at h; cases h)
     have := writeChar_value_good_gen c t q (by simp [hv]) (by
-      rw [hnc]; intro d h; exact hr ⟨d, h.1⟩) False
+      rw [hnc]; intro d h; exact hr (Or.inr ⟨d, h.1⟩)) hcl False
     rcases this with h | ⟨_, hf⟩
     · exact h
     · exact hf.elim
   · intro o c' h
+    obtain ⟨hcl, hcore⟩ := Lemmas.WriterChar.writeChar_ok c t q true (o, c') h
+    have h13 := Lemmas.WriterChar.strClean_noCR _ t hcl
     have hv : validate11 t = true := by
       cases hv : validate11 t with
       | true => rfl
-      | false => rw [Lemmas.WriterChar.writeChar_invalid c t q true ⟨hc, hv⟩] at h; cases h
+      | false => rw [Lemmas.WriterChar.writeChar_invalid c t q true ⟨hc, hv⟩] at hcore; cases hcore
     refine ⟨hv, ?_, ?_⟩
-    · rintro ⟨d, hd⟩
-      rw [Lemmas.WriterChar.writeChar_delim2_refused c t q true (by simp [hv]) (by rw [hnc]; exact d)
-        (Or.inr ⟨by rw [hnc]; exact hd, hc⟩)] at h
-      cases h
+    · rintro (hcr | ⟨d, hd⟩)
+      · exact h13 hcr
+      · rw [Lemmas.WriterChar.writeChar_delim2_refused c t q true (by simp [hv]) (by rw [hnc]; exact d)
+          (Or.inr ⟨by rw [hnc]; exact hd, hc⟩)] at hcore
+        cases hcore
     · have := Lemmas.WriterChunks.writeChar_keep c t q true o c' h
       exact ⟨this.2.2.2, this.2.1⟩
   · intro e he
-    rcases C13_refusal_codes c t q true e hc he with ⟨h1, h2⟩ | ⟨h1, h2, h3⟩
+    rcases C13_refusal_codes c t q true e hc he with ⟨h1, h2⟩ | ⟨h1, h2, h3⟩ | ⟨h1, h2⟩
     · exact Or.inl ⟨h1, by rw [h2]; simp⟩
-    · refine Or.inr ⟨h1, fun hn => hn ⟨h2, ?_⟩⟩
+    · refine Or.inr ⟨h1, fun hn => hn (Or.inr ⟨h2, ?_⟩)⟩
       rcases h3 with h3 | h3
       · cases h3
       · exact h3
+    · exact Or.inr ⟨h1, fun hn => hn (Or.inl h2)⟩
 
 /-- the characters of a value that the writer validates -/
 def valCE : V → Prop
